@@ -207,6 +207,32 @@ def check(ctx: Ctx, col: Collector, tier: str) -> None:
     (col.ok if good else col.bad)("C04.REEXPORT-GUARDS", f"{key0}::verdicts", repo.loc(VISITOR, rfi.node), f"verdicts: True or {sorted(others)}",
                                   *([] if good else [f"_check_publicity_in_reexports returns {sorted(others)} besides True/None"]))
 
+    # a relative import names its target relative to the re-exporting package, at any depth
+    dit = ctx.interp(rfi, inline={"is_internal"})
+    dmf = Obj("MypyFile", (("fullname", Const("pkg.sub._deep")), ("name", Const("_deep"))))
+    dit.run_function(rfi, {"self": Sym("self"), "name": Const("Deep"), "qname": Const("pkg.sub._deep.Deep"), "parent": Obj("Module", ())},
+                     State({"self": Sym("self"), "self.api": Sym("self.api"), "self.mypy_file": dmf}))
+    sloops = find_loops(dit, rfi, lambda v: "reexport_map[" in repr(v) and "wildcard" not in repr(v) and "qualified" not in repr(v))
+    if len(sloops) != 1:
+        raise AnalysisError("loop over the re-exporting modules not found")
+    snode, _, _, sentry = sloops[0]
+    for source_id, imp, desc in (("pkg", "sub._deep.Deep", "from .sub._deep import Deep in pkg/__init__.py"), ("pkg/sub", "_deep.Deep", "from ._deep import Deep in pkg/sub/__init__.py"),
+                                 ("other", "pkg.sub._deep.Deep", "from pkg.sub._deep import Deep in other/__init__.py")):
+        e = sentry.clone()
+        e.env["reexported_key"] = Const(imp)
+        e.env["module_is_reexported"] = Const(False)
+        src = Obj("Module", (("id", Const(source_id)), ("wildcard_imports", ListV(())),
+                             ("qualified_imports", ListV((Obj("QualifiedImport", (("qualified_name", Const(imp)), ("alias", Const(None)))),)))))
+        outs = run_body(dit, snode, e, src)
+        verdicts = {("True" if o.kind == "return" and o.value == Const(True) else o.kind) for o in outs}
+        key = f"{key0}::by-name-source::{source_id}<-{imp}"
+        if verdicts == {"True"}:
+            col.ok("C04.REEXPORT-GUARDS", key, repo.loc(VISITOR, snode), f"{desc}: the public declaration pkg.sub._deep.Deep becomes public")
+        else:
+            col.bad("C04.REEXPORT-GUARDS", key, repo.loc(VISITOR, snode), f"{desc}: outcomes {sorted(verdicts)}",
+                    f"`{desc}` does not make pkg.sub._deep.Deep public: the re-export is only accepted from the direct parent package or with the full qualified name, "
+                    f"so a relative import that goes more than one level deep is ignored and the declaration is dropped")
+
     # ------------------------------------------------------------------ REEXPORT-TABLE (both directions, per import form)
     reexport_table(ctx, col)
 
